@@ -77,10 +77,14 @@ impl WriteCircuitBreaker {
                 let now = current_timestamp();
                 let last_failure = self.last_failure_time.load(Ordering::Acquire);
 
-                if now - last_failure >= self.recovery_timeout.as_millis() as u64 {
-                    // Transition to half-open to test recovery
+                // The clock and the stored timestamp are read independently, so the failure
+                // may appear to lie in the future: treat that as "no time has passed"
+                if now.saturating_sub(last_failure) >= self.recovery_timeout.as_millis() as u64 {
+                    // Transition to half-open to test recovery. This request is itself a
+                    // probe of the half-open episode and is counted like any other.
                     self.transition_to_half_open();
-                    true
+                    let current_calls = self.half_open_call_count.fetch_add(1, Ordering::AcqRel);
+                    current_calls < self.half_open_max_calls
                 } else {
                     false // Still in failure mode
                 }
@@ -148,7 +152,7 @@ impl WriteCircuitBreaker {
             CircuitState::Open => {
                 let now = current_timestamp();
                 let last_failure = self.last_failure_time.load(Ordering::Acquire);
-                let elapsed = Duration::from_millis(now - last_failure);
+                let elapsed = Duration::from_millis(now.saturating_sub(last_failure));
 
                 if elapsed >= self.recovery_timeout {
                     Some(Duration::ZERO) // Ready to recover now
@@ -175,33 +179,33 @@ impl WriteCircuitBreaker {
     }
 
     fn transition_to_open(&self) {
-        self.state
-            .store(CircuitState::Open as u8, Ordering::Release);
-        // Reset half-open counters
+        // Reset half-open counters before the new state becomes visible: a reset that lands
+        // after a concurrent transition to half-open would forget probes already admitted
         self.half_open_call_count.store(0, Ordering::Release);
         self.half_open_success_count.store(0, Ordering::Release);
+        self.state
+            .store(CircuitState::Open as u8, Ordering::Release);
     }
 
     fn transition_to_half_open(&self) {
-        // Only transition if we're currently Open
+        // Only transition if we're currently Open. The half-open counters were reset when
+        // the circuit opened; they are not reset here because a thread that loses this race
+        // would wipe the probes counted by the winners of the same episode.
         let _ = self.state.compare_exchange(
             CircuitState::Open as u8,
             CircuitState::HalfOpen as u8,
             Ordering::AcqRel,
             Ordering::Acquire,
         );
-        // Reset half-open counters
-        self.half_open_call_count.store(0, Ordering::Release);
-        self.half_open_success_count.store(0, Ordering::Release);
     }
 
     fn transition_to_closed(&self) {
-        self.state
-            .store(CircuitState::Closed as u8, Ordering::Release);
-        // Reset all counters
+        // Reset all counters, then publish the state (see `transition_to_open`)
         self.failure_count.store(0, Ordering::Release);
         self.half_open_call_count.store(0, Ordering::Release);
         self.half_open_success_count.store(0, Ordering::Release);
+        self.state
+            .store(CircuitState::Closed as u8, Ordering::Release);
     }
 }
 
